@@ -404,7 +404,7 @@ func c20randStr(rng *Rng) string {
 }
 
 func runC20(r *Run, rng *Rng, replay string) {
-	r.Rule = "exhaustive: all 16384 columns both ways in three casings; boundary rows x sampled/all columns both abs modes; every string of length<=L over {A,Z,a,z,0,1,9,$,+,-,space,:,!,.}; seeded random strings (long names, raw bytes); accepted spellings through setter/getter pairs. non-trivial = accepted by impl or by the strict grammar (c2xy), every codec call otherwise; distinct by op text"
+	r.Rule = "exhaustive: all 16384 columns both ways in three casings; boundary rows x sampled/all columns both abs modes; every string of length<=L over {A,Z,a,z,0,1,9,$,+,-,space,:,!,.}; seeded random strings (long names, raw bytes); accepted spellings through setter/getter pairs; deepening: every string of length<=L over the neighbours alphabet {A,Z,a,z,0,9,$,/,:,@,[,`,{}, lenient range spellings through rangeRefToCoordinates and MergeCell/UnmergeCell, nine writer/reader pairs x three reader spellings on real Files. non-trivial = accepted by impl or by the strict grammar (c2xy), every codec call otherwise; distinct by op text"
 	if replay != "" {
 		c20replay(r, replay)
 		return
